@@ -61,6 +61,66 @@ theorem scalar_reject_col {ty allowed ser e ep} {v : Val} (h : allowed.any (·.a
       .ok (some (.wrongType (expected E (.scalar ty allowed ser e ep) false) v none none)) := by
   simp only [colC, h]; rfl
 
+/-! ### date / time values -/
+
+/-- a value of date/time class `k` is an `.opaque k _`, possibly wrapped as an instance of a user subclass -/
+theorem dtKind_base {v : Val} {k : String} (h : v.dtKind = some k) :
+    v.base.kind = .opaque k ∧ Val.isDtName k = true := by
+  cases v with
+  | «opaque» t r =>
+    simp only [Val.dtKind] at h
+    split at h
+    · cases h; exact ⟨rfl, by assumption⟩
+    · cases h
+  | sub c b =>
+    cases b with
+    | «opaque» t r =>
+      simp only [Val.dtKind] at h
+      split at h
+      · cases h; exact ⟨rfl, by assumption⟩
+      · cases h
+    | _ => simp [Val.dtKind] at h
+  | _ => simp [Val.dtKind] at h
+
+/-- the cells of the date/time table that are not refusals -/
+theorem dtCell_ne_refuse {ty k : String} (h : dtCell ty k ≠ .refuse) :
+    (Val.isDtName k = true ∧ k = ty) ∨ (k = "datetime" ∧ (ty = "date" ∨ ty = "time")) ∨
+    (k = "date" ∧ ty = "datetime") := by
+  unfold dtCell at h
+  repeat' split at h
+  all_goals first
+    | (exact absurd rfl h)
+    | (simp_all [Val.isDtName]; done)
+
+/-- the fast pass refuses every typed value the diagnostic pass refuses (no external is called) -/
+theorem dtTryTyped_refuse {ty : String} {v : Val} (h : dtAccepts ty v = false) :
+    dtTryTyped E ty v = .interrupt := by
+  unfold dtAccepts at h
+  unfold dtTryTyped
+  split at h
+  · rename_i k hk
+    cases hc : dtCell ty k with
+    | refuse => rfl
+    | same => rw [hc] at h; exact absurd h (by decide)
+    | call n => rw [hc] at h; simp at h
+  · rfl
+
+/-- what the date/time converter accepts among typed values is what its row of the kind table lists -/
+theorem dtAccepts_admitsKind {ty : String} {v : Val} (h : dtAccepts ty v = true) :
+    (Conv.datetime ty).admitsKind v.base.kind = true := by
+  unfold dtAccepts at h
+  split at h
+  · rename_i k hk
+    obtain ⟨hb, hn⟩ := dtKind_base hk
+    have hne : dtCell ty k ≠ .refuse := by simpa using h
+    rw [hb]
+    rcases dtCell_ne_refuse hne with ⟨h1, rfl⟩ | ⟨rfl, rfl | rfl⟩ | ⟨rfl, rfl⟩
+    · simp [Conv.admitsKind, h1]
+    · decide
+    · decide
+    · decide
+  · cases h
+
 /-- a leaf converter of the scalar table rejects every value whose kind it does not list -/
 theorem leaf_strict : (c : Conv) → (v : Val) → c.admitsKind v.base.kind = false → tryC E c v = .interrupt
   | .scalar ty allowed ser e ep, v, h => by
@@ -76,15 +136,12 @@ theorem leaf_strict : (c : Conv) → (v : Val) → c.admitsKind v.base.kind = fa
   | .datetime ty, v, h => by
     cases v with
     | str s => exact absurd h (by simp [Conv.admitsKind, Val.base, Val.kind])
-    | «opaque» t r =>
+    | _ =>
       simp only [tryC]
-      split
-      · rename_i ht
-        simp only [beq_iff_eq] at ht
-        subst ht
-        exact absurd h (by simp [Conv.admitsKind, Val.base, Val.kind])
-      · rfl
-    | _ => rfl
+      apply dtTryTyped_refuse
+      cases hacc : dtAccepts ty _ with
+      | false => rfl
+      | true => rw [dtAccepts_admitsKind hacc] at h; cases h
   | .any, _, h => Bool.noConfusion h
   | .literal _, _, h => Bool.noConfusion h
   | .union _, _, h => Bool.noConfusion h
